@@ -105,14 +105,16 @@ def _worker(task):
             # thresholds at relative size ~1e-9: below the sqrt(eps) floor of the eigen-decomposition mode -> SVD mode only
             is_eigh, pad = False, False
         order_ = [None, 'F', 'C'][int(rng.integers(3))]
+        # a quarter of the cases as an outer product with a vector (an interior / outer bond of rank one in the input)
+        outer_ = None if RD.tiered(case) else [None, None, None, 'right', 'right', 'left'][int(rng.integers(6))] if rng.random() < 0.5 else None
         try:
-            msg = RD.replay_truncate(None, case, rng, is_eigh, use_stab, scale_pow=sp, pad=pad, order=order_)
+            msg = RD.replay_truncate(None, case, rng, is_eigh, use_stab, scale_pow=sp, pad=pad, order=order_, outer=outer_)
         except Exception as ex:
             msg = 'truncate raised %s: %s' % (type(ex).__name__, ex)
         reduced = any(a < b for o in case['outcomes'] for a, b in zip(o['ranks'], RD.input_ranks(case)))
         sample = {'entries': case['ent'], 'T': case['T'], 'cap': case['cap'], 'outcomes': case['outcomes'][:2],
-                  'flags': {'is_eigh': is_eigh, 'use_stab': use_stab, 'scale_pow': sp}} if seed % 997 == 0 else None
-        out.append(('case', (case['ent'], case['T'], case['cap'], is_eigh, use_stab), reduced, sample))
+                  'flags': {'is_eigh': is_eigh, 'use_stab': use_stab, 'scale_pow': sp, 'outer': outer_}} if seed % 997 == 0 else None
+        out.append(('case', (case['ent'], case['T'], case['cap'], is_eigh, use_stab, outer_), reduced, sample))
         if msg:
             out.append(('viol', 'truncate:' + ('eigh' if is_eigh else 'svd'), msg, case))
     return out
